@@ -271,6 +271,29 @@ Theorem walked_index_is_ix_of_fs f dev under es0 :
   ix_of_fs f dev under es0 (build_index (scan_regs f dev under es0 (walk_listing f under) ++ export_regs f dev es0)).
 Proof. apply built_index_is_ix_of_fs. intros p i. apply walk_listing_complete. Qed.
 
+(** ** The whole run, with the index built rather than assumed: WholeRunProofs'
+    [whole_run_present_piece_recovered] for the index the insertion procedure builds from the
+    walk's listing and the export probes in the start state. *)
+From TB Require Import SolverProofs SearchProofs FinderProofs SystemModel SystemProofs EstablishProofs CompleteProofs RerunProofs TerminationProofs GlueProofs WholeRunProofs.
+Theorem whole_run_built_index_present_piece_recovered H content export ts es ws f0 dev under i pc :
+  let es0 := metadata_table export ts 0 in
+  let ix := build_index (scan_regs f0 dev under es0 (walk_listing f0 under) ++ export_regs f0 dev es0) in
+  run_setup H content export ts ix es ws f0 (map (solve_prog H) ws) ->
+  nth_error ws i = Some pc ->
+  H (piece_bytes content pc) = w_hash pc ->
+  Forall (pad_zero content) (w_segs pc) ->
+  Forall (seg_present_stable content f0 under es0 es) (w_segs pc) ->
+  let s0 := {| s_fs := f0; s_pool := map (solve_prog H) ws |} in
+  (exists s', freach s0 s' /\ finished s') /\
+  (forall s', freach s0 s' -> finished s' ->
+     nth_error (s_pool s') i = Some (Ret Success) /\
+     forall sg, In sg (w_segs pc) -> e_pad (ps_entry sg) = false -> holds_seg content (s_fs s') sg).
+Proof.
+  intros es0 ix Hset Hn Hh Hpz Hps.
+  exact (whole_run_present_piece_recovered H content export ts ix es ws f0 dev under i pc Hset Hn Hh Hpz
+           (walked_index_is_ix_of_fs f0 dev under es0) Hps).
+Qed.
+
 (** ** Non-vacuity: the example world of RunExample.v.  The walk lists the candidate twice (a scan
     directory given twice); the built index is the example's index, whichever way round. *)
 From TB Require Import RunExample.
